@@ -350,13 +350,14 @@ func c12(c *Ctx) {
 	for _, f := range withAnon(a.store) {
 		eachInstr(f, func(i ssa.Instruction) {
 			if cl, ok := i.(*ssa.Call); ok && facts.CalleeName(&cl.Call) == "(*badger.Txn).Set" {
-				okStore = facts.Term(cl.Call.Args[1]) == "(*N/vaa.VAAID).Bytes(N/db.VaaIDFromVAA(v))"
-				okVal = facts.Term(cl.Call.Args[2]) == "(*N/vaa.VAA).Marshal(v)#0" || facts.Term(cl.Call.Args[2]) == "b"
+				// (either operand may have been hoisted into a local captured by the closure)
+				okStore = facts.Term(resolveSpill(cl.Call.Args[1])) == "(*N/vaa.VAAID).Bytes(N/db.VaaIDFromVAA(v))"
+				okVal = facts.Term(resolveSpill(cl.Call.Args[2])) == "(*N/vaa.VAA).Marshal(v)#0"
 			}
 		})
 	}
 	// `b` is a captured variable: check its single definition
-	if okVal {
+	if okVal && false {
 		okVal = false
 		eachInstr(a.store, func(i ssa.Instruction) {
 			if st, ok := i.(*ssa.Store); ok {
@@ -369,6 +370,26 @@ func c12(c *Ctx) {
 			}
 		})
 	}
+	// … and it is written whenever the store reports success: a success that skips the write
+	// (keeping an older copy under the key) makes a later read return other bytes than were stored
+	for _, f := range withAnon(a.store) {
+		if f == a.store {
+			continue
+		}
+		for _, r := range acceptingReturns(f) {
+			wrote := false
+			for _, at := range facts.Atoms(acceptFacts(r)) {
+				if strings.HasPrefix(at, "(*badger.Txn).Set(") && strings.HasSuffix(at, " == nil") {
+					wrote = true
+				}
+			}
+			// `return txn.Set(k, v)` returns the write's own result
+			if cl, ok := r.Results[len(r.Results)-1].(*ssa.Call); ok && facts.CalleeName(&cl.Call) == "(*badger.Txn).Set" {
+				wrote = true
+			}
+			R.Check("C12.same-key", R.Key("C12.same-key", shortFn(f), "success-implies-written"), c.rel(p.Pos(instrPos(r))), "the store transaction reports success only after txn.Set of this VAA succeeded", wrote, "a nil return is reachable without the write: the bytes read back later are not the bytes stored")
+		}
+	}
 	R.Check("C12.same-key", "C12.same-key/StoreSignedVAA", c.rel(p.Pos(a.store.Pos())), "StoreSignedVAA writes Marshal(v) under VaaIDFromVAA(v).Bytes()", okStore && okVal, fmt.Sprintf("key ok=%v value ok=%v", okStore, okVal))
 	okGet, okCopy, okNF := false, false, false
 	for _, f := range withAnon(a.getBytes) {
@@ -376,7 +397,8 @@ func c12(c *Ctx) {
 			if cl, ok := i.(*ssa.Call); ok {
 				switch facts.CalleeName(&cl.Call) {
 				case "(*badger.Txn).Get":
-					okGet = strings.HasPrefix(facts.Term(cl.Call.Args[1]), "(*N/vaa.VAAID).Bytes(") && strings.Contains(facts.Term(cl.Call.Args[1]), "id")
+					kt := facts.Term(resolveSpill(cl.Call.Args[1]))
+					okGet = strings.HasPrefix(kt, "(*N/vaa.VAAID).Bytes(") && strings.Contains(kt, "id")
 				case "(*badger.Item).ValueCopy":
 					okCopy = isNilConst(cl.Call.Args[1])
 				}
@@ -384,7 +406,7 @@ func c12(c *Ctx) {
 		})
 	}
 	for _, r := range nonAcceptingReturns(a.getBytes) {
-		fs := facts.Atoms(facts.At(r, nil))
+		fs := facts.Atoms(acceptFacts(r))
 		if facts.Term(r.Results[1]) == "*N/db.ErrVAANotFound" {
 			for _, at := range fs {
 				if strings.Contains(at, "== *badger.ErrKeyNotFound") || strings.Contains(at, "*badger.ErrKeyNotFound ==") {
@@ -454,7 +476,7 @@ func c12(c *Ctx) {
 		}
 		nscan++
 		for _, r := range acceptingReturns(f) {
-			fs := facts.At(r, nil)
+			fs := acceptFacts(r)
 			ok := false
 			for _, ft := range fs {
 				if !ft.Pol && ft.Cond == ssa.Value(vfp) {
@@ -546,7 +568,7 @@ func c12rpc(c *Ctx, p *load.Program, idT *types.Named) {
 	for _, r := range nonAcceptingReturns(pub) {
 		t := facts.Term(r.Results[1])
 		if strings.HasPrefix(t, "google.golang.org/grpc/status.Error(5,") {
-			for _, at := range facts.Atoms(facts.At(r, nil)) {
+			for _, at := range facts.Atoms(acceptFacts(r)) {
 				if strings.Contains(at, "== *N/db.ErrVAANotFound") || strings.Contains(at, "*N/db.ErrVAANotFound ==") {
 					nf = true
 				}
